@@ -378,6 +378,20 @@ pub fn run(rep: &mut Rep) {
         drops: true,
         ..Default::default()
     };
+    // handle clones coming and going are no cause as long as one clone is left; the last one going is
+    let mut ah = a.clone();
+    ah.kinds = vec![Kind::Pub1, Kind::Ping];
+    ah.terms = vec![TermAct::DropHandles, TermAct::UserDisconnect, TermAct::Eof];
+    ah.handle_churn = true;
+    ah.race = false;
+    ah.drops = false;
+    ah.after_term = false;
+    {
+        let seed = rep.seed;
+        let dh = if rep.quick() { 5 } else { 7 };
+        rep.note("handle clones: exhaustive paths over {clone a handle, drop any clone but the last, start pub1 / ping, acknowledge, drop all handles, user DISCONNECT, EOF}: run() returns HandleClosed exactly when the last clone (and every pending operation holding one) is gone");
+        explore_world(rep, "exhh", dh, &move || World::boot(WorldCfg { seed, ..Default::default() }), &ah);
+    }
     let depth = if rep.quick() { 5 } else { 8 };
     rep.note(&format!("connect/authorize: all 22 CONNACK reasons x property sets, AUTH challenge, EOF / read error after every prefix of the response, write error; run(): all 28 server DISCONNECT reasons x 3 forms x properties x 5 session states; causes {{user DISCONNECT, EOF, read error, write error, undecodable input, all handles dropped}} x 5 states x with/without requests queued behind the cause; exhaustive paths of <= {depth} actions with the cause injected at every point and the context optionally held so that requests queue behind it"));
     let seed = rep.seed;
